@@ -82,8 +82,8 @@ def load_known():
 
 
 def write_replay(prop_id, payload):
-    d = VERIF / 'replays'
-    d.mkdir(exist_ok=True)
+    d = pathlib.Path(os.environ.get('VERIF_REPLAY_DIR', VERIF / 'replays'))
+    d.mkdir(parents=True, exist_ok=True)
     blob = json.dumps(payload, sort_keys=True, default=str)
     h = hashlib.sha1(blob.encode()).hexdigest()[:12]
     p = d / f'{prop_id}-{h}.json'
@@ -112,7 +112,9 @@ def run_check(prop, tier, seed):
     target = prop.PROPERTY_FILE[:-2] + '.vo'
     cone = []
     if not any(b[0] == 'translator' for b in broken):
-        ok, out, secs = coqrun.make([target])
+        # the generated case files import model files that need not be in the property's cone
+        models = [f[:-2] + '.vo' for f in coqrun.project_files() if f.startswith(('Model/', 'Generated/'))]
+        ok, out, secs = coqrun.make([target] + models)
         ev['build_s'] = round(secs, 1)
         cone = coqrun.dependency_cone(prop.PROPERTY_FILE)
         obligations = coqrun.count_statements(cone)
@@ -259,8 +261,9 @@ def run_check(prop, tier, seed):
         'assumptions': list(getattr(prop, 'ASSUMPTIONS', [])),
         'wall_s': round(wall, 2), 'violations': len(violations) + (1 if (broken and not violations) else 0),
     }
-    (VERIF / 'evidence').mkdir(exist_ok=True)
-    (VERIF / 'evidence' / f'{pid}.json').write_text(json.dumps(evidence, indent=1, default=str))
+    evdir = pathlib.Path(os.environ.get('VERIF_EVIDENCE_DIR', VERIF / 'evidence'))
+    evdir.mkdir(parents=True, exist_ok=True)
+    (evdir / f'{pid}.json').write_text(json.dumps(evidence, indent=1, default=str))
     print(f'{pid} {tier} seed={seed}: obligations={len(obligations)} discharged={discharged} '
           f'corr_cases={corr.evaluations} distinct={len(corr.keys)} oracle_runs={oracle_runs} '
           f'broken={len(broken)} violations={len(violations)} wall={wall:.1f}s')
